@@ -282,6 +282,10 @@ func kindTypeStr(t px.Type) (string, bool) {
 	return "", false
 }
 
+// unresolvable: the type expression mentions a kind about which an assignability question raises (Like: unresolved; Init: no
+// constructor) — such types cannot be the value type of a Struct member (NewStructElement asks)
+func unresolvable(t string) bool { return strings.Contains(t, "like") || strings.Contains(t, "init") }
+
 // callableNodes collects the Callable type expressions of the trees
 func callableNodes(e sx.Sexp, out *[]string) {
 	if e.Tag() == "callable" || (!e.IsList && e.Atom == "callable") {
@@ -398,7 +402,7 @@ func randKindType(r *rand.Rand, depth int) string {
 		s := "(struct"
 		for i := 0; i < n; i++ {
 			v := sub()
-			if strings.Contains(v, "like") { // Like types do not resolve: NewStructElement asks whether the value type accepts undef
+			if unresolvable(v) { // NewStructElement asks whether the value type accepts undef: a Like type does not resolve, an Init type looks for a constructor
 				v = "str"
 			}
 			s += " (" + sx.Str([]string{"a", "b", "Optional['a']"}[r.Intn(3)]).Atom + " " + []string{"s", "r", "o"}[r.Intn(3)] + " " + v + ")"
@@ -576,7 +580,7 @@ func mutKindType(r *rand.Rand, t sx.Sexp) (sx.Sexp, bool) {
 		case 1:
 			xs[i] = sx.L(m[0], sx.A([]string{"s", "r", "o"}[r.Intn(3)]), m[2])
 		case 2:
-			if v := mutType(r, m[2]); !strings.Contains(v.String(), "like") {
+			if v := mutType(r, m[2]); !unresolvable(v.String()) {
 				xs[i] = sx.L(m[0], m[1], v)
 			}
 		case 3:
